@@ -205,6 +205,14 @@ type BGVCase struct {
 	Pat       string    `json:"pat"`
 	Seed      uint64    `json:"seed"`
 	Dirty     bool      `json:"dirty"` // the plaintext and the encoder were used before for another (full) vector
+	LongIn    bool      `json:"longIn,omitempty"` // first, an input one element longer than the slot count: Encode must return an error
+	// Then is a second, fully checked round trip on the SAME encoder and the SAME plaintext object (same parameters and level)
+	Then *BGVCase `json:"then,omitempty"`
+}
+
+type bgvShared struct {
+	ecd *bgv.Encoder
+	pt  *rlwe.Plaintext
 }
 
 func (c BGVCase) RandSeed() uint64 { return c.Seed }
@@ -240,13 +248,26 @@ func genLen(t *rapid.T, n int, label string) int {
 }
 
 func genBGV(t *rapid.T) BGVCase {
+	c := genBGVStep(t, nil)
+	if rapid.IntRange(0, 2).Draw(t, "then") != 0 {
+		d := genBGVStep(t, &c)
+		c.Then = &d
+	}
+	return c
+}
+
+func genBGVStep(t *rapid.T, first *BGVCase) BGVCase {
 	var c BGVCase
 	maxLogN := 7
 	if h.Thorough() {
 		maxLogN = 9
 	}
-	c.Params, _ = genBGVSpec(t, maxLogN)
-	c.Level = rapid.IntRange(0, len(c.Params.Q)-1).Draw(t, "level")
+	if first != nil {
+		c.Params, c.Level = first.Params, first.Level
+	} else {
+		c.Params, _ = genBGVSpec(t, maxLogN)
+		c.Level = rapid.IntRange(0, len(c.Params.Q)-1).Draw(t, "level")
+	}
 	c.Scale = genScale(t, c.Params.T, "scale")
 	c.Batched = rapid.IntRange(0, 3).Draw(t, "batched") != 0
 	c.NTT = rapid.IntRange(0, 3).Draw(t, "ntt") != 0
@@ -262,6 +283,7 @@ func genBGV(t *rapid.T) BGVCase {
 	c.Pat = bgvPatterns[rapid.IntRange(0, len(bgvPatterns)-1).Draw(t, "pat")]
 	c.Seed = rapid.Uint64().Draw(t, "seed")
 	c.Dirty = rapid.Bool().Draw(t, "dirty")
+	c.LongIn = rapid.IntRange(0, 15).Draw(t, "longIn") == 0
 	return c
 }
 
@@ -310,6 +332,24 @@ func tClass(t uint64) string {
 }
 
 func runBGV(c BGVCase, rec *h.Rec) error {
+	sh := &bgvShared{}
+	if err := stepBGV(c, sh, rec); err != nil {
+		return err
+	}
+	if c.Then != nil {
+		t := *c.Then
+		t.Params, t.Level, t.Then, t.Dirty = c.Params, c.Level, nil, false
+		if err := stepBGV(t, sh, rec); err != nil {
+			if f, ok := err.(*h.Failure); ok {
+				return fail(rec, f.Key+":second-use", "second round trip on the same encoder and plaintext: %s", f.Msg)
+			}
+			return err
+		}
+	}
+	return nil
+}
+
+func stepBGV(c BGVCase, sh *bgvShared, rec *h.Rec) error {
 	params, err := c.Params.Build()
 	if err != nil {
 		if rejectedTight(c.Params) {
@@ -353,11 +393,27 @@ func runBGV(c BGVCase, rec *h.Rec) error {
 	Ql := h.ProdU(c.Params.Q[:level+1])
 	tight := new(big.Int).Lsh(h.BU(T), 1).Cmp(Ql) >= 0
 
-	ecd := bgv.NewEncoder(params)
-	pt := bgv.NewPlaintext(params, level)
+	if sh.ecd == nil {
+		sh.ecd = bgv.NewEncoder(params)
+		sh.pt = bgv.NewPlaintext(params, level)
+	}
+	ecd, pt := sh.ecd, sh.pt
 	pt.IsBatched = c.Batched
 	pt.IsNTT = c.NTT
 	rng := h.NewSplitMix(c.Seed)
+
+	if c.LongIn {
+		// near miss of the length condition: one element too many must be refused with an error, not a panic
+		rec.Classf("longIn:%s", b2s(c.Batched, "slots", "coeffs"))
+		pt.Scale = rlwe.NewScaleModT(1, T)
+		err, pan := guard(func() error { return ecd.Encode(make([]uint64, n+1), pt) })
+		if pan != "" {
+			return fail(rec, "C07:bgv:Encode:too-long-input:panic:"+b2s(c.Batched, "slots", "coeffs"), "Encode of %d values into %d slots panicked: %s", n+1, n, pan)
+		}
+		if err == nil {
+			return fail(rec, "C07:bgv:Encode:too-long-input:accepted:"+b2s(c.Batched, "slots", "coeffs"), "Encode of %d values into %d slots returned no error", n+1, n)
+		}
+	}
 
 	if c.Dirty {
 		pt.Scale = rlwe.NewScaleModT(rng.Uint64()%(T-1)+1, T)
@@ -405,7 +461,11 @@ func runBGV(c BGVCase, rec *h.Rec) error {
 		rec.Class("2t>=Qlevel")
 	}
 
+	inSnap := snapAny(in)
 	err, pan := guard(func() error { return ecd.Encode(in, pt) })
+	if pan == "" && err == nil && snapAny(in) != inSnap {
+		return fail(rec, "C07:bgv:Encode:modifies-input", "Encode modified its input slice")
+	}
 	if pan != "" {
 		return fail(rec, fmt.Sprintf("C07:bgv:Encode:%s:%s:panic", dom, ityp), "Encode panicked: %s (t=%d n=%d len=%d)", pan, T, n, inLen)
 	}
@@ -431,7 +491,11 @@ func runBGV(c BGVCase, rec *h.Rec) error {
 		}
 		out = gotU
 	}
+	ptSnap := snapPlaintext(pt)
 	err, pan = guard(func() error { return ecd.Decode(pt, out) })
+	if pan == "" && snapPlaintext(pt) != ptSnap {
+		return fail(rec, "C07:bgv:Decode:modifies-plaintext", "Decode modified the plaintext")
+	}
 	if pan != "" {
 		k := fmt.Sprintf("C07:bgv:Decode:%s:%s:%s:panic", dom, otyp, b2s(outLen < n, "short-output", "full-output"))
 		return fail(rec, k, "Decode panicked: %s (output slice of length %d, %d slots; doc: 'of size at most N')", pan, outLen, n)
